@@ -39,18 +39,46 @@ type Scn struct {
 	NoDECRQSS    bool   // terminal does not answer the cursor-style query (then Shape is 0)
 	PreSet       []int  `json:",omitempty"` // gated modes already set when the session starts
 	TermID       string `json:",omitempty"` // XTVERSION name; "tmux 3.4" implements mode 2027 without reporting it
+	Cols, Rows   int      `json:",omitempty"` // terminal size (0: 20x5); the large-frame steps need a large one
+	Env          []string `json:",omitempty"` // NAME=value set for this session only (child process): the library's environment options
 	Steps        []string
 	ConLog       string `json:",omitempty"` // where the session log is written (set by the parent for child runs)
 }
 
-// NeedsChild: sessions that end with a signal or an injected panic.
+// NeedsChild: sessions that end with a signal or an injected panic, and
+// sessions that set environment variables (the environment is the process's).
 func (s *Scn) NeedsChild() bool {
 	for _, st := range s.Steps {
-		if st == "kill" || st == "panic" || st == "panic3" || st == "kill3" || st == "killrender" || st == "killclose" {
+		if strings.HasPrefix(st, "kill") || strings.HasPrefix(st, "panic") {
+			return true
+		}
+	}
+	return len(s.Env) > 0
+}
+
+// Signals: sessions in which the library's signal handler is installed.
+func (s *Scn) Signals() bool {
+	for _, st := range s.Steps {
+		if strings.HasPrefix(st, "kill") || strings.HasPrefix(st, "panic") {
 			return true
 		}
 	}
 	return false
+}
+
+// tcon is the fake console with a stall point at Reset (the last thing
+// Suspend does, after the terminal has been restored and before Close closes
+// the console).
+type tcon struct {
+	*fakecon.Console
+	onReset atomic.Pointer[func()]
+}
+
+func (c *tcon) Reset() error {
+	if h := c.onReset.Load(); h != nil {
+		(*h)()
+	}
+	return c.Console.Reset()
 }
 
 // session log: "W <hex>" console writes, "M <mark>" marks.
@@ -101,13 +129,29 @@ func Execute(sc *Scn) *Result {
 		caps.PreSet[n] = true
 	}
 	sess.ScrubEnv()
-	con := fakecon.New(20, 5)
-	resp := responder.New(caps, 20, 5, con.Inject)
-	var blockNext atomic.Bool // the next console write stalls (a slow terminal) until writeGate opens
+	for _, kv := range sc.Env {
+		if i := strings.IndexByte(kv, '='); i > 0 {
+			os.Setenv(kv[:i], kv[i+1:])
+			defer os.Unsetenv(kv[:i])
+		}
+	}
+	cols, rows := sc.Cols, sc.Rows
+	if cols == 0 {
+		cols, rows = 20, 5
+	}
+	con := &tcon{Console: fakecon.New(cols, rows)}
+	resp := responder.New(caps, cols, rows, con.Inject)
+	// blockAt = n > 0: the n-th console write from now stalls (a slow terminal) until writeGate opens
+	var blockMu sync.Mutex
+	blockAt := 0
+	block := func(n int) { blockMu.Lock(); blockAt = n; blockMu.Unlock() }
 	writeGate := make(chan struct{})
 	writeHit := make(chan struct{}, 1)
 	var slowTerm atomic.Bool // the terminal takes 100 ms to answer
 	con.OnWrite = func(p []byte) {
+		if con.Closed() {
+			return // a closed console receives nothing
+		}
 		l.line("W " + hex.EncodeToString(p))
 		if slowTerm.Load() {
 			q := append([]byte(nil), p...)
@@ -115,12 +159,26 @@ func Execute(sc *Scn) *Result {
 		} else {
 			resp.OnWrite(p)
 		}
-		if blockNext.CompareAndSwap(true, false) {
+		blockMu.Lock()
+		hit := false
+		if blockAt > 0 {
+			blockAt--
+			hit = blockAt == 0
+		}
+		blockMu.Unlock()
+		if hit {
 			writeHit <- struct{}{}
 			<-writeGate
 		}
 	}
-	vx, err := vaxis.New(vaxis.Options{WithConsole: con, NoSignals: !sc.NeedsChild(),
+	// afterSize, when armed, runs once when Render has read the terminal size, just before it draws
+	var afterSize atomic.Pointer[func()]
+	con.AfterSize = func() {
+		if h := afterSize.Swap(nil); h != nil {
+			(*h)()
+		}
+	}
+	vx, err := vaxis.New(vaxis.Options{WithConsole: con, NoSignals: !sc.Signals(),
 		DisableMouse: sc.DisableMouse, DisableKittyKeyboard: sc.DisableKitty})
 	if err != nil {
 		res.Note = "start: " + err.Error()
@@ -157,6 +215,33 @@ func Execute(sc *Scn) *Result {
 			l.line("M hang:" + name)
 			res.Note = "hang in " + name
 			return false
+		}
+	}
+	// the signal path's Close has finished once the console is closed: nothing can be written after that
+	waitClosed := func(d time.Duration) bool {
+		deadline := time.Now().Add(d)
+		for !con.Closed() && time.Now().Before(deadline) {
+			time.Sleep(200 * time.Microsecond)
+		}
+		return con.Closed()
+	}
+	markClosed := func(what string) {
+		if waitClosed(5 * time.Second) {
+			l.line("M closed")
+		} else {
+			l.line("M hang:kill")
+			res.Note = "hang after kill signal " + what
+		}
+	}
+	linked := vaxis.Style{Foreground: vaxis.IndexColor(2), Attribute: vaxis.AttrBold, Hyperlink: "http://k"}
+	// a frame that changes every cell of a large screen: each row opens the hyperlink anew
+	bigFrame := func(g string) {
+		win := vx.Window()
+		w, h := win.Size()
+		for row := 0; row < h; row++ {
+			for col := 0; col < w; col++ {
+				win.SetCell(col, row, vaxis.Cell{Character: vaxis.Character{Grapheme: g, Width: 1}, Style: linked})
+			}
 		}
 	}
 	frames := 0
@@ -234,8 +319,9 @@ func Execute(sc *Scn) *Result {
 			// write stalled by a slow terminal: the signal path's Close runs beside it
 			l.line("M kill")
 			frames++
-			vx.Window().SetCell(frames%5, 2, vaxis.Cell{Character: vaxis.Character{Grapheme: "k", Width: 1}})
-			blockNext.Store(true)
+			vx.Window().SetCell(frames%5, 2, vaxis.Cell{Character: vaxis.Character{Grapheme: "k", Width: 1}, Style: linked})
+			vx.Window().SetCell(frames%5+2, 3, vaxis.Cell{Character: vaxis.Character{Grapheme: "l", Width: 1}, Style: linked})
+			block(1)
 			renderDone := make(chan struct{})
 			go func() { vx.Render(); close(renderDone) }()
 			select {
@@ -258,6 +344,134 @@ func Execute(sc *Scn) *Result {
 			} else {
 				l.line("M hang:kill")
 				res.Note = "hang after kill signal during Render"
+			}
+		case "killframe", "killdraw":
+			// a termination signal while the application goroutine draws a large frame: the signal
+			// path's Close runs while the frame is being produced.
+			// killframe: the signal is raised from inside Render, after it has read the terminal size
+			// and before it draws. killdraw: the signal path's Close has already begun (its first write
+			// to a slow terminal is stalled) and the terminal takes that write as Render starts to draw
+			l.line("M kill")
+			bigFrame("f")
+			vx.ShowCursor(1, 1, vaxis.CursorStyle(4))
+			trigger := func() { syscall.Kill(os.Getpid(), syscall.SIGTERM) }
+			if st == "killdraw" {
+				block(1)
+				syscall.Kill(os.Getpid(), syscall.SIGTERM)
+				select {
+				case <-writeHit:
+				case <-time.After(2 * time.Second):
+				}
+				trigger = func() { close(writeGate) }
+			}
+			afterSize.Store(&trigger)
+			vx.Resize() // the next Render reads the size first
+			renderDone := make(chan struct{})
+			go func() {
+				if caps.InBandResize {
+					// the size is not read from the console then: trigger on the way in
+					if h := afterSize.Swap(nil); h != nil {
+						(*h)()
+					}
+				}
+				vx.Render()
+				if h := afterSize.Swap(nil); h != nil {
+					(*h)() // Render did not ask for the size
+				}
+				close(renderDone)
+			}()
+			select {
+			case <-renderDone:
+			case <-time.After(50 * time.Millisecond):
+				// Render has not come to read the size (it may be waiting for the shutdown to finish)
+				if h := afterSize.Swap(nil); h != nil {
+					(*h)()
+				}
+				select {
+				case <-renderDone:
+				case <-time.After(5 * time.Second):
+				}
+			}
+			markClosed("beside a large frame")
+		case "killcursor2", "killcursor3":
+			// the application goroutine places the cursor (as it does for every frame) while the signal
+			// path's Close is restoring the terminal: its n-th write is stalled by a slow terminal
+			l.line("M kill")
+			block(int(st[len(st)-1] - '0'))
+			syscall.Kill(os.Getpid(), syscall.SIGTERM)
+			select {
+			case <-writeHit:
+			case <-time.After(2 * time.Second):
+			}
+			shown := make(chan struct{})
+			go func() { vx.ShowCursor(2, 2, vaxis.CursorStyle(3)); close(shown) }()
+			select {
+			case <-shown:
+			case <-time.After(20 * time.Millisecond): // it may have to wait for the shutdown
+			}
+			close(writeGate)
+			markClosed("beside ShowCursor")
+		case "killlate":
+			// the application goroutine draws one more frame when the signal path's Close has restored
+			// the terminal and has not yet returned (stalled in the console's Reset)
+			l.line("M kill")
+			atReset := make(chan struct{})
+			resetGate := make(chan struct{})
+			var once sync.Once
+			hold := func() { once.Do(func() { close(atReset); <-resetGate }) }
+			con.onReset.Store(&hold)
+			syscall.Kill(os.Getpid(), syscall.SIGTERM)
+			select {
+			case <-atReset:
+			case <-time.After(2 * time.Second):
+			}
+			frames++
+			drawn := make(chan struct{})
+			go func() {
+				vx.Window().SetCell(frames%5, 2, vaxis.Cell{Character: vaxis.Character{Grapheme: "z", Width: 1}, Style: linked})
+				vx.ShowCursor(2, 2, vaxis.CursorStyle(3))
+				vx.Render()
+				close(drawn)
+			}()
+			select {
+			case <-drawn:
+			case <-time.After(50 * time.Millisecond): // it may have to wait for the shutdown
+			}
+			close(resetGate)
+			markClosed("before a late frame")
+		case "killsuspend":
+			// a termination signal while the application is inside Suspend, waiting for a slow terminal
+			// to take and answer the query that wakes the input parser
+			l.line("M kill")
+			slowTerm.Store(true)
+			block(1)
+			suspended := make(chan struct{})
+			go func() { vx.Suspend(); close(suspended) }()
+			select {
+			case <-writeHit:
+			case <-time.After(2 * time.Second):
+			}
+			syscall.Kill(os.Getpid(), syscall.SIGTERM)
+			early := waitClosed(300 * time.Millisecond)
+			if early {
+				l.line("M closed") // the signal path's Close is through
+			}
+			close(writeGate)
+			select {
+			case <-suspended:
+				l.line("M suspended")
+			case <-time.After(5 * time.Second):
+				l.line("M hang:Suspend")
+				res.Note = "hang in Suspend beside a kill signal"
+			}
+			if !early {
+				// Suspend ends the signal handling: a signal the input goroutine had not taken by then
+				// closes nothing, and that is not a hang
+				if waitClosed(time.Second) {
+					l.line("M closed")
+				} else {
+					l.line("M signal-not-taken")
+				}
 			}
 		case "kill3":
 			// a termination signal while input is pouring in: hold the input
@@ -415,7 +629,25 @@ var CrashTemplates = [][]string{
 	{"frame", "killrender"},
 	{"frame", "killclose"},
 	{"frame", "suspend", "resume", "frame", "killrender"},
+	{"frame", "killframe"},
+	{"frame", "killdraw"},
+	{"frame", "killcursor3"},
+	{"frame", "suspend", "resume", "frame", "killcursor2"},
+	{"frame", "killlate"},
+	{"frame", "killsuspend", "close"},
+	{"frame", "suspend", "resume", "killsuspend"},
+	{"suspend", "resume", "frame", "killframe"},
 }
+
+// EnvTemplates: sessions under one of the library's environment options that
+// change which capabilities it uses (run in child processes, the variable set
+// for that session only).
+var EnvTemplates = [][]string{
+	{"frame", "close"},
+	{"frame", "suspend", "resume", "frame", "close", "close2"},
+	{"suspend", "resume", "suspend"},
+}
+var EnvOptions = []string{"VAXIS_FORCE_WCWIDTH=1", "VAXIS_FORCE_NOZWJ=1", "VAXIS_FORCE_UNICODE=1"}
 
 // MaskOf expands a 10-bit configuration number: 8 capability bits + 2 options.
 func Config(n int) (mask int, noMouse, noKitty bool) {
@@ -453,6 +685,36 @@ func Gen(configs []int, crash bool) []*Scn {
 				// Vaxis's quirk for it must not disturb the restore bookkeeping
 				sc.TermID = "tmux 3.4"
 				sc.Kind += "+tmux34"
+			}
+			for _, s := range t {
+				if s == "killframe" || s == "killdraw" {
+					sc.Cols, sc.Rows = 400, 120
+				}
+			}
+			out = append(out, sc)
+		}
+	}
+	return out
+}
+
+// GenEnv: for every configuration one session per environment option.
+func GenEnv(configs []int) []*Scn {
+	var out []*Scn
+	starts := []struct {
+		k     []int
+		shape int
+	}{{nil, 0}, {[]int{1}, 2}, {[]int{3, 1}, 5}}
+	for ci, n := range configs {
+		mask, nm, nk := Config(n)
+		for ei, env := range EnvOptions {
+			t := EnvTemplates[(ci+ei)%len(EnvTemplates)]
+			st := starts[(ci+ei)%len(starts)]
+			sc := &Scn{Kind: fmt.Sprintf("session-%s+env:%s", strings.Join(t, "-"), strings.SplitN(env, "=", 2)[0]),
+				Mask: mask, Alt: (ci+ei)%2 == 1, DisableMouse: nm, DisableKitty: nk, KStack: st.k, Shape: st.shape,
+				Env: []string{env}, Steps: t}
+			if (ci+ei)%4 == 3 {
+				sc.PreSet = []int{2027, 2031}
+				sc.Kind += "+preset"
 			}
 			out = append(out, sc)
 		}
